@@ -488,17 +488,28 @@ func (s *Sched) SimHook(point string, db *boltz.DbImpl) {
 		s.lockPending = false
 		s.lockHeld = true
 		cb := s.onRestore
+		name, isTask := s.goids[goid()]
 		s.mu.Unlock()
 		if cb != nil {
 			cb(point)
+		}
+		if isTask {
+			// a scheduling point while the write lock is held: tasks that need no lock may run
+			s.park(name, "restore.locked", NeedNone)
 		}
 		return
 	case "reload.unlock.after":
 		s.lockHeld = false
 		cb := s.onRestore
+		name, isTask := s.goids[goid()]
 		s.mu.Unlock()
 		if cb != nil {
 			cb(point)
+		}
+		if isTask {
+			// a scheduling point right after the unlock: whatever the restore still does afterwards runs
+			// concurrently with transactions that were waiting for the lock
+			s.park(name, "restore.unlocked", NeedNone)
 		}
 		return
 	}
